@@ -47,21 +47,21 @@ def split(cfg, tier):
     return 48 if cfg['n'] >= 7 else None
 
 
-def symbolic_table(ctx, rows, n):
+def symbolic_table(ctx, rows, n, tag=''):
     """Arbitrary peak-centred cyclepoint table under the C01 invariant (positions concretised)."""
     k = 2 * rows + 1
-    ps = [ctx.integer('e%d' % j) for j in range(k)]
+    ps = [ctx.integer('%se%d' % (tag, j)) for j in range(k)]
     ctx.assume(ps[0] >= 0)
     for j in range(1, k):
         ctx.assume(ps[j] > ps[j - 1])
     ctx.assume(ps[-1] <= n - 1)
     pos = [ctx.toint(p) for p in ps]
-    lm = ctx.integer('lm')
+    lm = ctx.integer(tag + 'lm')
     ctx.assume(lm >= 0)
     ctx.assume(lm <= pos[0])
     mids = [ctx.toint(lm)]
     for j in range(k - 1):
-        m = ctx.integer('m%d' % j)
+        m = ctx.integer('%smid%d' % (tag, j))
         ctx.assume(m >= pos[j])
         ctx.assume(m <= pos[j + 1])
         mids.append(ctx.toint(m))
